@@ -272,16 +272,39 @@ class DictDecoder:
             return self.bind_text(meta, var, value)
 
         keys = value.keys()
-        if keys == self.context.class_type.any_keys:
+        if self.is_generic(keys, self.context.class_type.any_element):
             # Bind data to AnyElement dataclass
             return self.bind_dataclass(value, self.context.class_type.any_element)
 
-        if keys == self.context.class_type.derived_keys:
+        if self.is_generic(keys, self.context.class_type.derived_element):
             # Bind data to AnyElement dataclass
             return self.bind_derived_value(meta, var, value)
 
         # Bind data to a user defined dataclass
         return self.bind_complex_type(meta, var, value)
+
+    def is_generic(self, keys: Iterable[str], clazz: type) -> bool:
+        """Return whether the keys are the field names of the generic class.
+
+        The fields that default to ``None`` may be missing, the
+        ``DictFactory.FILTER_NONE`` factory doesn't write them.
+
+        Args:
+            keys: The keys of the data value
+            clazz: The generic any or derived element class
+
+        Returns:
+            The bool result.
+        """
+        class_type = self.context.class_type
+        names = set()
+        required = set()
+        for field in class_type.get_fields(clazz):
+            names.add(field.name)
+            if class_type.default_value(field, default=...) is not None:
+                required.add(field.name)
+
+        return required.issubset(keys) and names.issuperset(keys)
 
     def bind_text(self, meta: XmlMeta, var: XmlVar, value: Any) -> Any:
         """Bind text/tokens value entrypoint.
@@ -391,7 +414,7 @@ class DictDecoder:
             The parsed object.
         """
         qname = data["qname"]
-        xsi_type = data["type"]
+        xsi_type = data.get("type")
         params = data["value"]
 
         if var.elements:
